@@ -707,6 +707,62 @@ def vc_rej_only_failed(fns, variants, work):
     return summarize(eng, found, {"rej_create_sites_reached": reached[0]}, work, "c13r", witness_ok=reached[0] > 0, witness_note="File::create not reached")
 
 
+def vc_rej_pass_complete(fns, variants, work):
+    """rollback_and_save_rej_files: an Ok return happens only when the stack top was looked at and is not an entry of the
+    rejected patch (None, or index < rejected): no arm leaves the loop with file patches of the rejected patch unprocessed."""
+    fn = find_fn(fns, r"rollback_and_save_rej_files$")
+    found, rets = [], [0]
+    IDX = r"(_\d+) = copy \(\(\*(_\d+)\)\.0: usize\)$"
+
+    def on_stmt(eng, st, bb, s):
+        m = re.match(IDX, s)
+        if m:
+            st.ghost = frozenset(g for g in st.ghost if not g.startswith("idx:")) | {"idx:" + m.group(2)}
+        elif re.match(r"_0 = Result::<\(\), .*>::Ok\(", s):
+            st.ghost = st.ghost | {"ret_ok"}
+
+    def on_call(eng, st, bb, site, stmt, dst, callee, args, nxt):
+        c = strip_generics(callee)
+        if c.endswith("]>::last") or c.endswith("::last"):
+            st.ghost = frozenset(g for g in st.ghost if not g.startswith("idx:")) | {"looked"}
+        elif re.search(r"Vec::pop$", c):
+            # the top changed: what was looked at says nothing about the new top
+            st.ghost = frozenset(g for g in st.ghost if not g.startswith("idx:") and g != "looked") | {"popped"}
+        return None
+
+    def on_return(eng, st, bb):
+        if "ret_ok" not in st.ghost:
+            return
+        rets[0] += 1
+        if "popped" in st.ghost and "looked" not in st.ghost:
+            ok, _ = eng.feasible(st)
+            if ok:
+                found.append({"bb": bb, "stmt": "return", "what": "the reject pass ends right after dropping an entry, without looking at the next one "
+                              "(file patches of the rejected patch can stay unprocessed: no rollback, no .rej)", "model": {}, "trace": list(st.trace[-30:])})
+            return
+        rej = eng.read_path(st, "_2", "usize")
+        for r in [g[4:] for g in st.ghost if g.startswith("idx:")]:
+            ref = st.store.get(r)
+            if isinstance(ref, Ref):
+                idx = eng.read_path(st, ref.target + ".0", "usize")
+                ok, model = eng.feasible(st, [z3.UGE(idx, rej)])
+                eng.record_query("%s pass ends on an entry of the rejected patch" % bb, list(st.pc) + [z3.UGE(idx, rej)])
+                if ok:
+                    found.append({"bb": bb, "stmt": "return", "what": "the reject pass ends while the stack top still belongs to the rejected patch",
+                                  "model": model_values(model, ("in_",)), "trace": list(st.trace[-30:])})
+
+    eng = Engine(fns, fn, variants, hooks={"on_call": on_call, "on_stmt": on_stmt, "on_return": on_return})
+    seeds = {"_2", "_0"}
+    for bb, stmts in fn.blocks.items():
+        for s_ in stmts:
+            m = re.match(IDX, s_)
+            if m:
+                seeds |= {m.group(1), m.group(2)}
+    eng.seeds = seeds
+    eng.run()
+    return summarize(eng, found, {"ok_returns_reached": rets[0]}, work, "c13p", witness_ok=rets[0] > 0, witness_note="Ok return not reached")
+
+
 def vc_worker_stop_strict(fns, variants, work):
     """apply_worker: a file patch with index > earliest_broken is never applied, one with index == earliest_broken still is."""
     fn = find_fn(fns, r"^apply_worker$")
@@ -866,6 +922,74 @@ def vc_choose_filename(fns, variants, work):
     eng = Engine(fns, fn, variants, hooks={"after_call": after_call, "on_return": on_return})
     eng.run()
     return summarize(eng, found, {"returns_checked": rets[0]}, work, "c16c", witness_ok=rets[0] >= 4, witness_note="fewer than 4 return paths explored")
+
+
+def vc_series_defaults(fns, variants, work):
+    """read_series_file: every SeriesPatch that is built has strip == N when a usable -pN was given and strip == 1 otherwise;
+    a line without options gives strip 1 and no -R."""
+    found, reached, total = [], [0], {"queries": 0, "states": 0, "paths": 0, "solver_s": 0.0}
+    strip_idx = mirvc.struct_field_index("SeriesPatch", "strip")
+    rev_idx = mirvc.struct_field_index("SeriesPatch", "reverse")
+    engines = []
+    for name in sorted(fns):
+        if not re.match(r"(cmd::)?read_series_file(::\{closure#\d+\})*$", name):
+            continue
+        fn = fns[name]
+        if not any(re.search(r"= SeriesPatch \{", s_) for stmts in fn.blocks.values() for s_ in stmts):
+            continue
+        opts = {}
+
+        def after_call(eng, st, bb, site, stmt, dst, callee, args, argv, opts=opts):
+            c = strip_generics(callee)
+            if re.search(r"Option::<usize>::(unwrap_or|unwrap_or_default|unwrap_or_else)", callee) and argv and argv[0][1] is not None:
+                p = argv[0][1]
+                opts["disc"] = eng.read_path(st, p + "#disc", "isize")
+                opts["pay"] = eng.read_path(st, p + "@Some.0", "usize")
+
+        def on_agg(eng, st, tyname, dpath, site, opts=opts):
+            if not re.search(r"(^|::)SeriesPatch$", tyname.strip()):
+                return
+            reached[0] += 1
+            strip = eng.read_path(st, dpath + ".%d" % strip_idx, "usize")
+            if "disc" in opts:
+                conds = [("no usable -p option but strip != 1", z3.And(opts["disc"] == 0, strip != 1)),
+                         ("-pN given but strip != N", z3.And(opts["disc"] == 1, strip != opts["pay"]))]
+            else:
+                rev = eng.read_path(st, dpath + ".%d" % rev_idx, "bool")
+                conds = [("a series line without options gets strip != 1", strip != 1)]
+                if z3.is_bool(rev):
+                    conds.append(("a series line without options is reversed", rev))
+            for what, c in conds:
+                ok, model = eng.feasible(st, [c])
+                eng.record_query("%s %s" % (site, what[:30]), list(st.pc) + [c])
+                if ok:
+                    found.append({"bb": site, "stmt": tyname, "what": what, "model": model_values(model, ("in_", "c_")), "trace": list(st.trace[-20:])})
+
+        eng = Engine(fns, fn, variants, hooks={"after_call": after_call, "on_aggregate": on_agg})
+        seeds = set()
+        for bb, stmts in fn.blocks.items():
+            for s_ in stmts:
+                m = re.match(r"(_\d+) = SeriesPatch \{ (.*) \}$", s_)
+                if m:
+                    seeds.add(m.group(1))
+                    seeds |= set(re.findall(r"_\d+", m.group(2)))
+                m = callm(s_, need_dst=True)
+                if m and re.search(r"Option::<usize>::unwrap_or", m.group(2)):
+                    seeds.add(m.group(1))
+                    seeds |= set(re.findall(r"_\d+", m.group(3)))
+        eng.seeds = seeds
+        eng.run()
+        engines.append(eng)
+    if not engines:
+        return {"verdict": "inconclusive", "reason": "no function of read_series_file builds a SeriesPatch", "queries": 0, "states": 0, "solver_s": 0.0}
+    res = summarize(engines[0], found, {"series_entries_built": reached[0]}, work, "c16s", witness_ok=reached[0] >= 2, witness_note="expected two construction sites (with / without options)")
+    for e in engines[1:]:
+        r2 = summarize(e, [], {}, work, "c16s2", witness_ok=True, witness_note="")
+        for k in ("queries", "states"):
+            res[k] = res.get(k, 0) + r2.get(k, 0)
+        if r2.get("verdict") == "inconclusive" and res.get("verdict") == "holds":
+            res["verdict"], res["reason"] = "inconclusive", r2.get("reason")
+    return res
 
 
 def vc_direction_from_series(fns, variants, work):
